@@ -104,6 +104,10 @@ func execC20Type(c *child.Ctx, t int, r *ref.SplitMix64, extraBodies int) {
 	}
 	// synthetic CRC-valid frames of this type with bodies of each decodable layout
 	bodies := []string{"msm4", "msm7", "1005", "1006", "random", "len7", "len8", "msm4-continued-empty", "msm7-continued-empty"}
+	if is4 || is7 || t == 1005 || t == 1006 {
+		// long messages of the decodable types: lengths in every band of 256
+		bodies = append(bodies, "long-256", "long-512", "long-768", "long-1000")
+	}
 	for i := 0; i < extraBodies; i++ {
 		bodies = append(bodies, []string{"msm4", "msm7", "random", "random"}[i%4])
 	}
@@ -142,6 +146,26 @@ func execC20Type(c *child.Ctx, t int, r *ref.SplitMix64, extraBodies int) {
 			}
 			ts = m.Timestamp
 			payload = ref.EncodeMSMAs(m, body == "msm7-continued-empty")
+		case "long-256", "long-512", "long-768", "long-1000":
+			target := map[string]int{"long-256": 256, "long-512": 512, "long-768": 768, "long-1000": 1000}[body] + r.Intn(24)
+			if is4 || is7 {
+				m := gen.RandMSM(r, gen.MSMOpts{Type: t})
+				if ref.ConstellationOf(t) == "Glonass" {
+					m.Timestamp = uint(r.Range(1, 6))<<27 | uint(r.Range(1, 86399999))
+				} else {
+					m.Timestamp = uint(r.Range(1, 604799999))
+				}
+				m.PadBytes = 0
+				if n := len(ref.EncodeMSM(m)); n < target {
+					m.PadBytes = target - n
+				}
+				ts = m.Timestamp
+				payload = ref.EncodeMSM(m)
+			} else {
+				b := gen.RandBase(r, t)
+				b.Trailing = make([]byte, target-19-2*(t-1005))
+				payload = ref.EncodeBase(b, t)
+			}
 		case "1005", "1006":
 			bt := 1005
 			if body == "1006" {
@@ -217,6 +241,22 @@ func execC20Type(c *child.Ctx, t int, r *ref.SplitMix64, extraBodies int) {
 					c.Violate("decoder-family", fmt.Sprintf("the MSM7 decoder accepted a type %d frame (a continued message without signal cells)", t), cj)
 				}
 			}
+			if strings.HasPrefix(body, "long-") {
+				var err error
+				switch {
+				case is4:
+					_, err = msm4msg.GetMessage(frame, slog.LevelInfo)
+				case is7:
+					_, err = msm7msg.GetMessage(frame, slog.LevelInfo)
+				case t == 1005:
+					_, err = type1005.GetMessage(frame, slog.LevelInfo)
+				default:
+					_, err = type1006.GetMessage(frame, slog.LevelInfo)
+				}
+				if err != nil {
+					c.Violate("decoder-family", fmt.Sprintf("type %d: its own decoder rejects a well-formed message of %d bytes: %v", t, len(payload), err), cj)
+				}
+			}
 			if body == "1005" {
 				_, err := type1005.GetMessage(frame, slog.LevelInfo)
 				if (err == nil) != (t == 1005) {
@@ -241,7 +281,7 @@ func execC20Type(c *child.Ctx, t int, r *ref.SplitMix64, extraBodies int) {
 				}
 				hasTime := m.Timestamp != 0 || m.SentAt != "" || m.StartOfWeek != ""
 				if is4 || is7 {
-					if (body == "msm4" || body == "msm7" || body == "len7" || body == "len8" || strings.HasSuffix(body, "-continued-empty")) && (m.Timestamp != ts || m.SentAt == "") {
+					if (body == "msm4" || body == "msm7" || body == "len7" || body == "len8" || strings.HasSuffix(body, "-continued-empty") || strings.HasPrefix(body, "long-")) && (m.Timestamp != ts || m.SentAt == "") {
 						c.Violate("timestamp", fmt.Sprintf("type %d: extracted timestamp %d (SentAt %q), encoded %d", t, m.Timestamp, m.SentAt, ts), cj)
 					}
 				} else if hasTime {
@@ -284,6 +324,23 @@ func execC20Type(c *child.Ctx, t int, r *ref.SplitMix64, extraBodies int) {
 				}
 				if len(m.String()) == 0 {
 					c.Violate("display", fmt.Sprintf("display of type %d is empty", t), cj)
+				}
+				// a copy taken from a message that has been displayed is decoded (or not) and
+				// displayed like a copy taken before
+				{
+					h2 := handler.New(fixedStart, lvl)
+					fresh, _ := h2.GetMessage(frame)
+					if fresh != nil {
+						early := fresh.Copy()
+						early.LogLevel = lvl
+						_ = fresh.String()
+						late := fresh.Copy()
+						late.LogLevel = lvl
+						te, tl := early.String(), late.String()
+						if te != tl || fmt.Sprintf("%T", early.Readable) != fmt.Sprintf("%T", late.Readable) {
+							c.Violate("dispatch", fmt.Sprintf("type %d with %s body: a copy taken after the message was displayed decodes to %T and displays %d bytes, a copy taken before decodes to %T and displays %d bytes", t, body, late.Readable, len(tl), early.Readable, len(te)), cj)
+						}
+					}
 				}
 				c.Count("handler_dispatch_checks", 1)
 			}
